@@ -64,6 +64,33 @@ func (fr *Frame) call(in ssa.Instruction, cc *ssa.CallCommon, res ssa.Value) {
 		fr.builtin(b, cc, res)
 		return
 	}
+	// call-site guards (guard dominance obligations)
+	if !fr.inlined && fr.contract != nil && len(fr.contract.Guards) > 0 {
+		name := ""
+		if cc.IsInvoke() {
+			name = cc.Method.Name()
+		} else if f := cc.StaticCallee(); f != nil {
+			name = f.Name()
+		}
+		for _, g := range fr.contract.Guards {
+			if g.Name != name {
+				continue
+			}
+			env := fr.newEnv()
+			env.contract = fr.contract
+			env.at = fr.curBlock
+			// the call's arguments are visible as callee_<parameter name>
+			if f := cc.StaticCallee(); f != nil && !cc.IsInvoke() {
+				for i, p := range f.Params {
+					if i < len(cc.Args) {
+						env.vars["callee_"+p.Name()] = fr.val(cc.Args[i])
+					}
+				}
+			}
+			fr.x.guardsSeen[g.Name] = true
+			fr.oblige("guard", name, fr.evalBool(g.Expr, env), g.Src)
+		}
+	}
 	var args []*SVal
 	var fn *ssa.Function
 	if cc.IsInvoke() {
@@ -232,6 +259,7 @@ func (fr *Frame) inline(fn *ssa.Function, c *Contract, bind, args []*SVal, rt ty
 		site = fr.site + ">" + fn.Name()
 	}
 	cf := x.newFrame(fn, c, true, site)
+	cf.parent = fr
 	for i, p := range fn.Params {
 		if i < len(args) {
 			cf.vals[p] = args[i]
@@ -755,15 +783,46 @@ func (fr *Frame) copySlice(dst, src *SVal) *SVal {
 	dArr, dOff, dLen := dst.F[0].Term, dst.F[1].Term, dst.F[2].Term
 	sArr, sOff, sLen := src.F[0].Term, src.F[1].Term, src.F[2].Term
 	n := x.em.Def("copy.n", "Int", sIte(sLe(dLen, sLen), dLen, sLen))
+	// statically known small length: explicit element stores instead of a quantified row
+	small := -1
+	if a, ok := isIntLit(dLen); ok {
+		if b, ok := isIntLit(sLen); ok && a.IsInt64() && b.IsInt64() {
+			m := a.Int64()
+			if b.Int64() < m {
+				m = b.Int64()
+			}
+			if m >= 0 && m <= 80 {
+				small = int(m)
+				n = sInt(m)
+			}
+		}
+	}
 	for _, eh := range elemHeaps(et) {
 		h := x.heapGet(fr.cur, eh.name, eh.sort)
 		rowS := "(Array Int " + eh.lf.Sort + ")"
-		nr := x.em.Fresh("copy.row", rowS)
 		oldRow := sSelect(h, dArr)
 		srcRow := sSelect(h, sArr)
+		if small >= 0 {
+			src0 := x.em.Def("copy.src", rowS, srcRow)
+			nr := oldRow
+			for j := 0; j < small; j++ {
+				nr = sStore(nr, sAdd(dOff, sInt(int64(j))), sSelect(src0, sAdd(sOff, sInt(int64(j)))))
+			}
+			nrd := x.em.Def("copy.row", rowS, nr)
+			fr.heapSet(eh.name, eh.sort, sStore(h, dArr, nrd))
+			if origin, ok := x.snap[dArr]; ok && len(eh.lf.Path) == 0 {
+				fr.writeLoc(origin, leaf(origin.T, nrd))
+			}
+			continue
+		}
+		nr := x.em.Fresh("copy.row", rowS)
 		x.em.Assert(fmt.Sprintf("(forall ((j Int)) (! (= (select %s j) (ite (and (<= %s j) (< j (+ %s %s))) (select %s (+ %s (- j %s))) (select %s j))) :pattern ((select %s j))))",
 			nr, dOff, dOff, n, srcRow, sOff, dOff, oldRow, nr))
 		fr.heapSet(eh.name, eh.sort, sStore(h, dArr, nr))
+		// destination is a snapshot of an array embedded in a struct: write the array back
+		if origin, ok := x.snap[dArr]; ok && len(eh.lf.Path) == 0 {
+			fr.writeLoc(origin, leaf(origin.T, nr))
+		}
 	}
 	return leaf(intType, n)
 }
